@@ -55,3 +55,77 @@ Proof.
   vm_compute in E. discriminate.
 Qed.
 Print Assumptions C06_converges_full_statement_refuted.
+
+(* ======== version-vector protocol (VV.v) ========
+
+   A. The LWW resolver is NOT symmetric when the two current-version VALUES are equal (and the tombstone flags
+      agree): DefaultLWWConflictResolutionType keeps the remote document only if its value is STRICTLY greater, so
+      the local document wins whichever side runs the resolver.  Equal values from two sources are reachable: a
+      value is the wall clock with the low 16 bits cleared (65.536 microsecond ticks) plus a counter, generated
+      independently by each database.  With the fixed roles of the model (only the active side resolves) this does
+      not break convergence -- C06_lww_converges has no premise on the values.  It does matter as soon as BOTH sides
+      resolve the same conflict before seeing each other's result (two replicators pulling from each other, outside
+      this model's topology): each keeps its own document and records the other's current version as "seen", after
+      which CheckChangeVersion answers "known" in both directions and nothing is ever transferred again.  With
+      different values both would have picked the same winner (C06_lww_symmetric).  Not exercised on the real code
+      (the harness cannot force two hybrid logical clocks to collide); recorded here as the honest treatment of the
+      equal-value case, not as a defect of the two-peer ISGR topology. *)
+From SG Require Import C10.HLV C06.VV.
+
+Definition ops_equal_values : list vop := [VEdit VA 0 2 100; VEdit VB 0 3 100].
+
+Theorem C06_lww_symmetric_equal_values_refuted :
+  exists x y,
+    vdoc_of (vrun vsys0 ops_equal_values) VA 0 = Some x /\ vdoc_of (vrun vsys0 ops_equal_values) VB 0 = Some y /\
+    ver (d_hlv x) = ver (d_hlv y) /\ cv (d_hlv x) <> cv (d_hlv y) /\
+    lww_winner x y = x /\ lww_winner y x = y /\ lww_winner x y <> lww_winner y x.
+Proof.
+  eexists. eexists. split; [vm_compute; reflexivity|]. split; [vm_compute; reflexivity|].
+  vm_compute. repeat split; try reflexivity; discriminate.
+Qed.
+Print Assumptions C06_lww_symmetric_equal_values_refuted.
+
+(* both sides resolve the equal-value conflict on their own: the results differ, and each transfer between them is
+   answered "known" -- the copies stay different for ever *)
+Theorem C06_equal_values_two_resolvers_stuck_refuted :
+  exists x y,
+    vdoc_of (vrun vsys0 ops_equal_values) VA 0 = Some x /\ vdoc_of (vrun vsys0 ops_equal_values) VB 0 = Some y /\
+    let x' := fst (vtransfer true (Some y) (Some x)) in     (* the active side resolves *)
+    let y' := fst (vtransfer true (Some x) (Some y)) in     (* the passive side resolves the same conflict *)
+    vobs x' <> vobs y' /\
+    vtransfer true y' x' = (x', VKnown) /\ vtransfer true x' y' = (y', VKnown).
+Proof.
+  eexists. eexists. split; [vm_compute; reflexivity|]. split; [vm_compute; reflexivity|].
+  vm_compute. repeat split; try reflexivity; discriminate.
+Qed.
+Print Assumptions C06_equal_values_two_resolvers_stuck_refuted.
+
+(* B. HISTORIC, repaired by /repo commit d3fd06e (kept to document what the revision-tree id of the model is for).
+      Before the repair resolveRemoteWinsHLV tombstoned the local revision unconditionally.  When the incoming
+      revision IS the local revision -- the same document created with the same body on both sides: same
+      revision-tree id, different versions -- the tombstone became the child of the very revision being stored and
+      the winner of the tree: the active side ended with a TOMBSTONE carrying the passive side's current version,
+      the passive side stayed live, and every later transfer was answered "known".  The repaired code (and VV.v)
+      skips the tombstone when the ids are equal; the corpus scenario "same-body-both-sides" replays it. *)
+Definition resolve_remote_wins_pre_d3fd06e (l i : vdoc) : vdoc :=
+  if list_eqb N.eqb (d_rev i) (d_rev l) && negb (d_del l)
+  then mkD (update_with_incoming (d_hlv l) (d_hlv i)) tomb_body true (del_digest_body :: d_rev l)
+  else resolve_remote_wins l i.
+
+Definition ops_same_body : list vop := [VEdit VA 0 3 10; VEdit VB 0 3 20].
+
+Theorem C06_pre_d3fd06e_same_revision_diverges :
+  exists x y,
+    vdoc_of (vrun vsys0 ops_same_body) VA 0 = Some x /\ vdoc_of (vrun vsys0 ops_same_body) VB 0 = Some y /\
+    d_rev x = d_rev y /\ lww_remote_wins x y = true /\
+    let r := resolve_remote_wins_pre_d3fd06e x y in
+    d_del r = true /\ d_del y = false /\ cv (d_hlv r) = cv (d_hlv y) /\
+    vtransfer false (Some r) (Some y) = (Some y, VKnown) /\ vtransfer true (Some y) (Some r) = (Some r, VKnown) /\
+    (* the repaired resolution stores the live revision *)
+    vobs (Some (resolve_remote_wins x y)) = vobs (Some y).
+Proof.
+  eexists. eexists. split; [vm_compute; reflexivity|]. split; [vm_compute; reflexivity|].
+  vm_compute. repeat split; reflexivity.
+Qed.
+Print Assumptions C06_pre_d3fd06e_same_revision_diverges.
+
